@@ -330,7 +330,8 @@ def run_compiler_check(ctx, res, prop):
             if o != list(set(l)):
                 res.disagree(dict(label="setorder", list=l), "iteration order of set(list) differs", code=list(set(l)), model=o)
     replies = ctx.model(reqs)
-    stats = dict(event_free=0, event_free_bad=0, failing=0, y1_only=0, in_fragment=0, in_fragment_bad=0)
+    stats = dict(event_free=0, event_free_bad=0, failing=0, y1_only=0, in_fragment=0, in_fragment_bad=0,
+                 in_general=0, in_general_only=0, in_general_cache_hit=0)
     for n, k in enumerate(idx):
         job, out = jobs[k], outs[k]
         label, kind, payload, optn, unc, _ = job
@@ -366,7 +367,9 @@ def run_compiler_check(ctx, res, prop):
             if fail and j["wrong"] is None and j["dirty"] is None:
                 stats["y1_only"] += 1
         events = set(rep.get("events", [])) if rep and "error" not in rep else set()
-        # the instance lies in the class of one of the Lean fragment theorems (C02_fragment_partial: single tree-like
+        # the instance lies in the class of C02_general_partial (`in_general`: definition lists with cache hits, shared
+        # sub-expressions across statements, re-binding, several return bits, uncompute on or off) or of one of the
+        # older Lean fragment theorems (C02_fragment_partial: single tree-like
         # definition; C02_fragment_consts: + constants; C02_fragment_multi / C02_fragment_named: straight-line
         # definition lists – the driver's `in_fragment` is their disjunction for this run; it reports the last two
         # for uncompute off only, the theorems cover uncompute on as well since the port to the repaired compiler,
@@ -376,6 +379,14 @@ def run_compiler_check(ctx, res, prop):
         frag_thm = "C02_fragment_partial"
         if in_frag:
             stats["in_fragment"] += 1
+            if rep.get("in_general"):
+                # the class of C02_general_partial (cache hits, sharing across statements, re-binding)
+                stats["in_general"] += 1
+                frag_thm = "C02_general_partial"
+                if rep.get("in_general_only"):
+                    stats["in_general_only"] += 1
+                if "cacheHit" in events:
+                    stats["in_general_cache_hit"] += 1
             if not rep.get("valid", True):
                 res.disagree(case, "model instance inside the class of a C02 fragment theorem rejected by the Lean validator "
                              "(contradicts the theorem's statement)", code=None, model=dict(valid=False))
@@ -439,8 +450,11 @@ def run_compiler_check(ctx, res, prop):
                 "independent simulator. distinct by (program, optimizer, uncompute); non-trivial = at least one compound "
                 "expression and >= 2 input bits")
     if prop == "C02":
+        res.notes.append(f"{stats['in_general']} compiled instances lie in the decidable class of C02_general_partial "
+                         f"(inGeneralClass: cache hits, sharing across statements, re-binding; {stats['in_general_only']} of them in no "
+                         f"older class, {stats['in_general_cache_hit']} with a cache hit in the model run)")
         res.notes.append(f"{stats['in_fragment']} compiled instances lie in the decidable class of a Lean fragment theorem "
-                         "(C02_fragment_partial: one tree-like definition; C02_fragment_consts: + constants; "
+                         "(C02_general_partial, C02_fragment_partial: one tree-like definition; C02_fragment_consts: + constants; "
                          "C02_fragment_multi / C02_fragment_named: straight-line definition lists with re-used freed ancillas; "
                          "the driver reports these two for uncompute off, the theorems hold for uncompute on and off) with "
                          "the model reproducing the real gate list; all four are proved for the model of the repaired compiler; "
